@@ -54,9 +54,9 @@ func c13Spec() spec.Spec {
 		{Op: "AllowNoAttrs", Scope: "matching", OnRe: reMyX},
 		attrsPat([]string{"title"}, "", `^my-xy$`),
 		{Op: "AllowStyles", Names: []string{"color"}, Scope: "global"},
-		{Op: "AllowStyles", Names: []string{"color"}, Enum: []string{"red"}, Scope: "on", On: []string{"p"}},
+		{Op: "AllowStyles", Names: []string{"color"}, Enum: []string{"Red"}, Scope: "on", On: []string{"p"}},
 		{Op: "AllowStyles", Names: []string{"width"}, Re: `^[0-9]+px$`, Scope: "matching", OnRe: reMy},
-		{Op: "AllowStyles", Names: []string{"height"}, Enum: []string{"1px", "2px"}, Scope: "matching", OnRe: reMyX},
+		{Op: "AllowStyles", Names: []string{"height"}, Enum: []string{"1px", "2PX"}, Scope: "matching", OnRe: reMyX},
 		{Op: "AllowStyles", Names: []string{"width"}, Enum: []string{"auto"}, Scope: "matching", OnRe: `^my-xy$`},
 		attrsGlob([]string{"style"}, ""),
 		attrsOn([]string{"href"}, "", "a"), attrsOn([]string{"src"}, "", "img"),
@@ -71,7 +71,7 @@ func c13Spec() spec.Spec {
 
 var c13Inputs = []string{
 	`<my-xy id=a style="width: 5px; color: blue">t</my-xy>`,
-	`<my-y style="width: 7px"><a href="http://example.org/">l</a></my-y>`,
+	`<my-y style="width: 7px"><a href="http://example.org/">l</a></my-y><p style="color: red">y</p>`,
 	`<img src="https://e.x/i.png"><p style="color: red">x</p>`,
 	`<my-x style="height: 2px"><a>z</a></my-x>`,
 }
